@@ -58,6 +58,9 @@ type FuncContract struct {
 	Trusted    bool // contract assumed, body not verified (listed as assumption)
 	NoSafety   bool
 	NoOverflow bool
+	Uses       []string
+	Reveals    []string // opaque spec functions whose definition this function's proof may use
+	Hints      []*Clause // function-level `hint E`: instances of spec-function definitions, assumed at entry
 	Timeout    int
 	File       string
 	Line       int
@@ -96,11 +99,13 @@ type PkgContracts struct {
 	Specs   []string // verbatim Go source of spec funcs (sugar rewritten)
 	Lemmas  []*Lemma
 	Tables  []*TableInv
+	Closed  []*closedDecl
+	Opaque  map[string]bool
 	File    string
 	Raw     string
 }
 
-var kwRe = regexp.MustCompile(`^(import|func|property|requires|ensures|modifies|loop|may_panic|trusted|nosafety|timeout|spec|lemma|axiom|panics|table|nooverflow)\b`)
+var kwRe = regexp.MustCompile(`^(import|func|property|requires|ensures|modifies|loop|may_panic|trusted|nosafety|timeout|spec|lemma|axiom|panics|table|nooverflow|closed|hint|uses|reveals)\b`)
 
 func parseContractFile(path string) (*PkgContracts, error) {
 	f, err := os.Open(path)
@@ -160,6 +165,21 @@ func parseContractFile(path string) (*PkgContracts, error) {
 		case "import":
 			pc.Imports = append(pc.Imports, rest)
 			last = nil
+		case "closed":
+			// closed Iface: T1, T2, *T3
+			i := strings.Index(rest, ":")
+			if i < 0 {
+				return nil, fmt.Errorf("%s:%d: closed IFACE: T1, T2, ...", path, ln)
+			}
+			cd := &closedDecl{iface: strings.TrimSpace(rest[:i]), line: ln}
+			for _, t := range strings.Split(rest[i+1:], ",") {
+				if t = strings.TrimSpace(t); t != "" {
+					cd.impls = append(cd.impls, t)
+				}
+			}
+			pc.Closed = append(pc.Closed, cd)
+			cur, curLemma, curTable = nil, nil, nil
+			last = nil
 		case "table":
 			f := strings.Fields(rest)
 			if len(f) != 3 || f[1] != "over" {
@@ -170,9 +190,19 @@ func parseContractFile(path string) (*PkgContracts, error) {
 			cur, curLemma = nil, nil
 			last = nil
 		case "spec":
+			// `spec opaque func f(...)`: f is an uninterpreted function except in functions that `reveals f`
+			if strings.HasPrefix(rest, "opaque ") {
+				rest = strings.TrimSpace(strings.TrimPrefix(rest, "opaque "))
+				if m := regexp.MustCompile(`^func\s+(\w+)`).FindStringSubmatch(rest); m != nil {
+					if pc.Opaque == nil {
+						pc.Opaque = map[string]bool{}
+					}
+					pc.Opaque[m[1]] = true
+				}
+			}
 			inSpec = true
 			spec = []string{rest}
-			if strings.HasSuffix(strings.TrimSpace(rest), "}") && strings.Count(rest, "{") == strings.Count(rest, "}") {
+			if !strings.Contains(rest, "{") || (strings.HasSuffix(strings.TrimSpace(rest), "}") && strings.Count(rest, "{") == strings.Count(rest, "}")) {
 				inSpec = false
 				pc.Specs = append(pc.Specs, rest)
 				spec = nil
@@ -277,6 +307,26 @@ func parseContractFile(path string) (*PkgContracts, error) {
 			default:
 				return nil, fmt.Errorf("%s:%d: bad loop clause", path, ln)
 			}
+		case "reveals":
+			if cur == nil {
+				return nil, fmt.Errorf("%s:%d: reveals outside func", path, ln)
+			}
+			cur.Reveals = append(cur.Reveals, strings.Fields(strings.ReplaceAll(rest, ",", " "))...)
+			last = nil
+		case "uses":
+			// uses lemmaName ...: the (separately proved) lemmas are available as quantified facts
+			if cur == nil {
+				return nil, fmt.Errorf("%s:%d: uses outside func", path, ln)
+			}
+			cur.Uses = append(cur.Uses, strings.Fields(strings.ReplaceAll(rest, ",", " "))...)
+			last = nil
+		case "hint":
+			if cur == nil {
+				return nil, fmt.Errorf("%s:%d: hint outside func", path, ln)
+			}
+			cl := &Clause{Kind: "requires", Text: rest, Line: ln, File: path, Hint: true}
+			cur.Hints = append(cur.Hints, cl)
+			last = cl
 		case "may_panic":
 			cur.MayPanic = true
 			last = nil
@@ -345,6 +395,7 @@ func (fc *FuncContract) allClauses() []*Clause {
 	for _, cs := range fc.LoopHint {
 		out = append(out, cs...)
 	}
+	out = append(out, fc.Hints...)
 	return out
 }
 
